@@ -43,13 +43,16 @@ def lay(a, layout):
 
 
 def call(fn, **objs):
+    """Run `fn` (a thunk, or a list of thunks run independently); returns
+    (name of first mutated argument | None, '+'-joined exception class names | None)."""
     snap = Snapshot(**objs)
-    exc = None
-    try:
-        fn()
-    except Exception as e:  # accepted refusal
-        exc = type(e).__name__
-    return snap.changed(), exc
+    excs = []
+    for f in (fn if isinstance(fn, (list, tuple)) else [fn]):
+        try:
+            f()
+        except Exception as e:  # accepted refusal
+            excs.append(type(e).__name__)
+    return snap.changed(), ("+".join(sorted(set(excs))) or None)
 
 
 def rs(v):
@@ -211,12 +214,9 @@ def _(v):
     r = rs(v); n = v["n"]
     X = lay(r.randint(-3, 4, size=(n, 2)).astype(float), v["layout"])
 
-    def go():
-        g = G.knn(X, 2)
-        g.dijkstra(0); g.cc(); g.symmeterize(); g.to_coo_matrix()
-        G.eps_nn(X, 2.0)
-        G.mst(X)
-    return call(go, X=X)
+    ops = [lambda: G.knn(X, 2).dijkstra(0), lambda: G.knn(X, 1).cc(), lambda: G.eps_nn(X, 2.0),
+           lambda: G.mst(X), lambda: G.knn(X, 20), lambda: G.lil_cc([[1], [0], []])]
+    return call(ops, X=X)
 
 
 @probe("graph.WeightedGraph(edges)")
@@ -225,12 +225,13 @@ def _(v):
     r = rs(v); n = max(v["n"], 1); e = 2 * n
     edges = lay(r.randint(0, n, size=(e, 2)), v["layout"]); w = lay(r.randint(0, 4, size=e).astype(float), v["layout"])
 
-    def go():
-        g = WeightedGraph(n, edges, w)
-        g.dijkstra(0); g.floyd(); g.cc(); g.remove_trivial_edges(); g.cut_redundancies()
-        g.normalize(0); g.symmeterize(); g.anti_symmeterize(); g.voronoi_labelling([0])
-        g.kruskal()
-    return call(go, edges=edges, w=w)
+    mk = lambda: WeightedGraph(n, edges, w)
+    ops = [lambda: mk().dijkstra(0), lambda: mk().floyd(), lambda: mk().cc(),
+           lambda: mk().remove_trivial_edges(), lambda: mk().cut_redundancies(),
+           lambda: mk().normalize(0), lambda: mk().symmeterize(), lambda: mk().anti_symmeterize(),
+           lambda: mk().voronoi_labelling([0]), lambda: mk().kruskal(), lambda: mk().to_coo_matrix(),
+           lambda: mk().subgraph(np.arange(n) % 2 == 0), lambda: mk().compact_neighb()]
+    return call(ops, edges=edges, w=w)
 
 
 @probe("field.Field ops")
@@ -241,13 +242,11 @@ def _(v):
     xyz = lay(np.array([[i, i % 2, 0] for i in range(n)]).reshape(n, 3), v["layout"])
     f = lay(r.randint(0, 5, size=(n, 1)).astype(float), v["layout"])
 
-    def go():
-        g = wgraph_from_3d_grid(xyz, 18)
-        F = field_from_graph_and_data(g, f)
-        F.local_maxima(); F.custom_watershed(); F.threshold_bifurcations()
-        F.copy().dilation(1); F.copy().erosion(1); F.copy().opening(1); F.copy().closing(1)
-        F.ward(2)
-    return call(go, xyz=xyz, f=f)
+    mk = lambda: field_from_graph_and_data(wgraph_from_3d_grid(xyz, 18), f)
+    ops = [lambda: mk().local_maxima(), lambda: mk().custom_watershed(), lambda: mk().threshold_bifurcations(),
+           lambda: mk().dilation(1), lambda: mk().erosion(1), lambda: mk().opening(1), lambda: mk().closing(1),
+           lambda: mk().ward(2), lambda: mk().diffusion(2), lambda: mk().highest_neighbor()]
+    return call(ops, xyz=xyz, f=f)
 
 
 @probe("clustering.kmeans+voronoi")
@@ -266,11 +265,9 @@ def _(v):
     r = rs(v); n = v["n"] + 3
     X = lay(r.randint(-4, 5, size=(n, 2)).astype(float), v["layout"])
 
-    def go():
-        g = knn(X, 2)
-        t = ward(g, X); t.split(2); t.partition(1.0)
-        ward_quick(g, X)
-    return call(go, X=X)
+    ops = [lambda: ward(knn(X, 2), X).split(2), lambda: ward(knn(X, 2), X).partition(1.0),
+           lambda: ward_quick(knn(X, 2), X)]
+    return call(ops, X=X)
 
 
 @probe("gmm.GMM")
@@ -293,10 +290,10 @@ def _(v):
     pts = lay(r.randn(v["n"], 3), v["layout"]); vec = lay(r.randn(12) * 0.1, v["layout"][0] == "r" and "C" or "C")
     m44 = lay(np.eye(4) + 0.1 * r.randn(4, 4) * np.array([1, 1, 1, 0])[:, None], v["layout"])
 
-    def go():
-        A = Affine(vec); A.apply(pts); A.compose(Rigid()).apply(pts); A.inv().apply(pts)
-        Similarity(m44).apply(pts); Rigid(m44).as_affine()
-    return call(go, pts=pts, vec=vec, m44=m44)
+    ops = [lambda: Affine(vec).apply(pts), lambda: Affine(vec).compose(Rigid()).apply(pts),
+           lambda: Rigid().compose(Affine(vec)).apply(pts), lambda: Affine(vec).inv().apply(pts),
+           lambda: Similarity(m44).apply(pts), lambda: Rigid(m44).as_affine()]
+    return call(ops, pts=pts, vec=vec, m44=m44)
 
 
 @probe("cubic_spline")
@@ -325,7 +322,7 @@ def _(v):
     def go():
         I = Image(a, vox2mni(np.eye(4))); J = Image(b, vox2mni(np.eye(4)))
         for interp in ("pv", "tri", "rand"):
-            R = HistogramRegistration(I, J, interp=interp, bins=8)
+            R = HistogramRegistration(I, J, interp=interp, from_bins=8, to_bins=8)
             R.eval(Affine()); R.eval(Affine(np.array([40., 0, 0, 0, 0, 0, 1, 1, 1, 0, 0, 0])))
     return call(go, a=a, b=b)
 
@@ -420,12 +417,8 @@ def _(v):
     X = lay(np.column_stack([np.ones(n), r.randn(n)]), v["layout"]); Y = lay(r.randn(n, 3), v["layout"])
 
     def go():
-        for m in ("ols", "kalman", "ar1"):
-            if m == "kalman":
-                m = "ols"; kw = {"method": "kalman"}
-            else:
-                kw = {}
-            g = G.glm(Y, X, model=m, **kw)
+        for model, method in (("spherical", "ols"), ("spherical", "kalman"), ("ar1", None)):
+            g = G.glm(Y, X, model=model, method=method)
             g.contrast([0, 1]).stat()
     return call(go, X=X, Y=Y)
 
